@@ -2,10 +2,11 @@
 # Run the quick check of each seeded change's own property against the change (scratch copies) and
 # record the outcome: seeded/RESULTS.md and "caught_by" in each meta.json.
 # usage: tools/seedsweep.sh [seed-dir-name ...]      (default: all under seeded/)
+#        SEEDSWEEP_OUT=<file> writes the table elsewhere (parallel lanes; merge the rows afterwards)
 VER=$(cd "$(dirname "$0")/.." && pwd)
 cd "$VER" || exit 2
 NAMES=${*:-$(ls seeded | grep -E '^C[0-9]+-[a-z]$')}
-OUT="$VER/seeded/RESULTS.md"
+OUT=${SEEDSWEEP_OUT:-"$VER/seeded/RESULTS.md"}
 TMP=$(mktemp)
 for n in $NAMES; do
     id=${n%-*}
